@@ -239,8 +239,8 @@ def compositions(ctx: core.Ctx):
     rng = np.random.default_rng([ctx.seed, 8])
     if ctx.quick:
         return [(0.65, 200.0, 0.03, 0.012, 0.018, "dry gas", 3000, 40),
-                (0.8, 120.0, 0.0, 0.0, 0.0, "wet gas", 3000, 40),
-                (1.0, 300.0, 0.05, 0.01, 0.04, "wet gas", 3000, 40)]
+                (0.8, 120.0, 0.0, 0.0, 0.0, "wet gas", 2555, 40),      # maximum pressures that are not multiples of the step
+                (1.0, 300.0, 0.05, 0.01, 0.04, "wet gas", 995.5, 40)]
     comps = [(0.65, 200.0, 0.03, 0.012, 0.018, "dry gas", 14000, 80)]     # default table size
     for g in (0.56, 0.7, 0.9, 1.2):
         for T in (80.0, 180.0, 400.0):
@@ -251,7 +251,7 @@ def compositions(ctx: core.Ctx):
         comps.append((round(float(rng.uniform(0.56, 1.2)), 4), round(float(rng.uniform(80, 400)), 2),
                       round(float(rng.uniform(0, 0.1)), 4), round(float(rng.uniform(0, 0.1)), 4),
                       round(float(rng.uniform(0, 0.1)), 4), str(rng.choice(["dry gas", "wet gas"])),
-                      int(rng.choice([2000, 5000, 9000])), 50))
+                      float(rng.choice([2000, 5000, 9000, 3127.5, 6127])), 50))
     return comps
 
 
